@@ -1,7 +1,7 @@
 CONSTANTS
   Dev = {}
-  RD = 2
-  MaxRetries = 1
+  TickMs = 10000
+  Confs <- MCConfs
   MaxDgrams = 2
   Faults <- MCFaults
 SPECIFICATION DLiveSpec
